@@ -23,6 +23,84 @@ pub struct Req {
     pub k: u16,
     pub t: u16,
     pub data_seed: u8,
+    /// > 0: not a request but a jump of the simulated clock by this many seconds (idle period)
+    #[serde(default, skip_serializing_if = "is_zero")]
+    pub jump_s: u32,
+}
+
+fn is_zero(x: &u32) -> bool {
+    *x == 0
+}
+
+/// The clock seam: every clock the process reads through libc goes through an LD_PRELOAD
+/// interposer (clockshim.c) whose offset the simulator owns. rqsim builds the interposer and
+/// re-executes itself under it; nothing in /repo reads a clock today, so on the unchanged tree a
+/// jump is a no-op by construction -- it exists so that a cache that starts to depend on idle time
+/// (expiry, clean-up) is exercised across long idle periods in microseconds.
+pub mod clock {
+    use std::ffi::c_void;
+    use std::os::unix::process::CommandExt;
+    const SHIM_SRC: &str = include_str!("clockshim.c");
+    extern "C" {
+        fn dlsym(handle: *mut c_void, symbol: *const u8) -> *mut c_void;
+    }
+    type Adv = unsafe extern "C" fn(i64);
+    fn advance_fn() -> Option<Adv> {
+        // RTLD_DEFAULT is the null handle on glibc
+        let p = unsafe { dlsym(std::ptr::null_mut(), b"verif_clock_advance\0".as_ptr()) };
+        if p.is_null() {
+            None
+        } else {
+            Some(unsafe { std::mem::transmute::<*mut c_void, Adv>(p) })
+        }
+    }
+    pub fn loaded() -> bool {
+        advance_fn().is_some()
+    }
+    /// advance the simulated clock; false if the seam is not in place
+    pub fn advance_s(secs: u32) -> bool {
+        match advance_fn() {
+            Some(f) => {
+                unsafe { f(secs as i64 * 1_000_000_000) };
+                true
+            }
+            None => false,
+        }
+    }
+    /// make sure this process runs under the interposer: build it and re-exec once if it does not
+    pub fn ensure(verif_dir: &std::path::Path) {
+        if loaded() {
+            return;
+        }
+        if std::env::var("VERIF_CLOCKSHIM").is_ok() {
+            eprintln!("HARNESS-ERROR: clock interposer preloaded but its symbols are not visible");
+            std::process::exit(2);
+        }
+        let dir = verif_dir.join("sim").join("target").join("scratch");
+        let _ = std::fs::create_dir_all(&dir);
+        let src = dir.join(format!("clockshim-{}.c", std::process::id()));
+        let tmp = dir.join(format!("libclockshim-{}.so", std::process::id()));
+        let so = dir.join("libclockshim.so");
+        let built = std::fs::write(&src, SHIM_SRC).is_ok()
+            && std::process::Command::new("cc")
+                .args(["-shared", "-fPIC", "-O1", "-o"])
+                .arg(&tmp)
+                .arg(&src)
+                .arg("-ldl")
+                .status()
+                .map(|s| s.success())
+                .unwrap_or(false)
+            && std::fs::rename(&tmp, &so).is_ok();
+        let _ = std::fs::remove_file(&src);
+        if !built {
+            eprintln!("HARNESS-ERROR: cannot build the clock interposer with cc in {}", dir.display());
+            std::process::exit(2);
+        }
+        let exe = std::env::current_exe().expect("current_exe");
+        let err = std::process::Command::new(exe).args(std::env::args_os().skip(1)).env("LD_PRELOAD", &so).env("VERIF_CLOCKSHIM", "1").exec();
+        eprintln!("HARNESS-ERROR: re-exec under the clock interposer failed: {err}");
+        std::process::exit(2);
+    }
 }
 
 #[derive(Clone, Debug, Serialize, Deserialize, PartialEq)]
@@ -70,6 +148,8 @@ fn check_snapshot(at: usize) -> Result<usize, Fail> {
 }
 
 pub struct Stats {
+    pub clock_jumps: u64,
+    pub jumped_s: u64,
     pub requests: u64,
     pub max_cached: usize,
     pub hits: u64,
@@ -78,9 +158,20 @@ pub struct Stats {
 }
 
 pub fn execute(h: &History, refs: &mut HashMap<(u16, u16, u8), Observed>) -> Result<Stats, Fail> {
-    let mut st = Stats { requests: 0, max_cached: 0, hits: 0, evictions: 0, alias_pairs: 0 };
+    let mut st = Stats { clock_jumps: 0, jumped_s: 0, requests: 0, max_cached: 0, hits: 0, evictions: 0, alias_pairs: 0 };
     let mut prev: Option<Req> = None;
     for (at, r) in h.reqs.iter().enumerate() {
+        if r.jump_s > 0 {
+            if !clock::advance_s(r.jump_s) {
+                eprintln!("HARNESS-ERROR: clock seam missing (history asks for a clock jump)");
+                std::process::exit(2);
+            }
+            st.clock_jumps += 1;
+            st.jumped_s += r.jump_s as u64;
+            // the cache must still be consistent when looked at after the idle period
+            check_snapshot(at)?;
+            continue;
+        }
         if r.k == 0 || r.t == 0 {
             continue;
         }
@@ -144,7 +235,13 @@ pub fn generate(seed: u64) -> History {
     }
     let mut reqs = vec![];
     let mut i = 0usize;
+    // a third of the histories contain idle periods (simulated clock jumps)
+    let jumps = r.chance(1, 3);
     while reqs.len() < n {
+        if jumps && r.chance(1, 30) {
+            let s = *r.pick(&[1u32, 30, 59, 60, 61, 120, 600, 3600, 86_400, 2_592_000]);
+            reqs.push(Req { k: 0, t: 0, data_seed: 0, jump_s: s });
+        }
         match r.below(11) {
             10 => {
                 // neighbouring sizes around an extended block size K' (K' + 1, K', K' - 1 map to
@@ -156,7 +253,7 @@ pub fn generate(seed: u64) -> History {
                     trio.reverse();
                 }
                 for k in trio {
-                    reqs.push(Req { k, t: 4, data_seed: r.below(2) as u8 });
+                    reqs.push(Req { k, t: 4, data_seed: r.below(2) as u8, jump_s: 0 });
                 }
             }
             0 => {
@@ -164,7 +261,7 @@ pub fn generate(seed: u64) -> History {
                 let (t, step) = *r.pick(&[(1024u16, 64u16), (4096, 16), (16384, 4), (32768, 2)]);
                 let k1 = r.range(1, 12) as u16;
                 let k2 = k1 + step * r.range(1, 2) as u16;
-                let mut pair = [Req { k: k1, t, data_seed: r.below(4) as u8 }, Req { k: k2, t, data_seed: r.below(4) as u8 }];
+                let mut pair = [Req { k: k1, t, data_seed: r.below(4) as u8, jump_s: 0 }, Req { k: k2, t, data_seed: r.below(4) as u8, jump_s: 0 }];
                 if r.chance(1, 2) {
                     pair.swap(0, 1);
                 }
@@ -172,19 +269,19 @@ pub fn generate(seed: u64) -> History {
             }
             1 | 2 => {
                 // walk through the pool (fills and overflows the cache)
-                reqs.push(Req { k: pool[i % pool.len()], t: 4, data_seed: r.below(4) as u8 });
+                reqs.push(Req { k: pool[i % pool.len()], t: 4, data_seed: r.below(4) as u8, jump_s: 0 });
                 i += 1;
             }
             3 => {
                 // a hot size requested again and again
-                reqs.push(Req { k: pool[0], t: 4, data_seed: r.below(4) as u8 });
+                reqs.push(Req { k: pool[0], t: 4, data_seed: r.below(4) as u8, jump_s: 0 });
             }
             4 => {
                 let t = *r.pick(&[1u16, 2, 8, 16, 63, 64, 65, 1280]);
-                reqs.push(Req { k: *r.pick(&pool), t, data_seed: r.below(4) as u8 });
+                reqs.push(Req { k: *r.pick(&pool), t, data_seed: r.below(4) as u8, jump_s: 0 });
             }
             _ => {
-                reqs.push(Req { k: *r.pick(&pool), t: 4, data_seed: r.below(4) as u8 });
+                reqs.push(Req { k: *r.pick(&pool), t: 4, data_seed: r.below(4) as u8, jump_s: 0 });
             }
         }
     }
@@ -209,10 +306,17 @@ fn to_violation(ctx: &Ctx, run: u64, h: &History, f: &Fail, min_from: Option<(us
 
 /// returns (exit code); writes the evidence *fragment* sim-side (merged by shuttle17/merge_evidence.py)
 pub fn run(ctx: &Ctx) -> i32 {
+    clock::ensure(&ctx.verif_dir);
     let t0 = std::time::Instant::now();
     let n = ctx.runs(150, 6_000);
     let mut refs: HashMap<(u16, u16, u8), Observed> = HashMap::new();
-    let mut total = Stats { requests: 0, max_cached: 0, hits: 0, evictions: 0, alias_pairs: 0 };
+    // self-check of the seam: std's Instant must see a jump
+    let probe = std::time::Instant::now();
+    if !clock::advance_s(7) || probe.elapsed().as_secs() < 7 {
+        eprintln!("HARNESS-ERROR: the clock interposer does not move std::time::Instant");
+        return 2;
+    }
+    let mut total = Stats { clock_jumps: 0, jumped_s: 7, requests: 0, max_cached: 0, hits: 0, evictions: 0, alias_pairs: 0 };
     let mut violations = vec![];
     let mut runs = 0u64;
     let mut sample = None;
@@ -227,6 +331,8 @@ pub fn run(ctx: &Ctx) -> i32 {
         match execute(&h, &mut refs) {
             Ok(st) => {
                 total.requests += st.requests;
+                total.clock_jumps += st.clock_jumps;
+                total.jumped_s += st.jumped_s;
                 total.max_cached = total.max_cached.max(st.max_cached);
                 total.hits += st.hits;
                 total.evictions += st.evictions;
@@ -278,31 +384,36 @@ pub fn run(ctx: &Ctx) -> i32 {
             }
         }
     }
-    let wall = t0.elapsed().as_secs_f64();
+    // the harness's own stopwatch reads the simulated clock too: take the jumps out again
+    let wall = (t0.elapsed().as_secs_f64() - total.jumped_s as f64).max(0.0);
     let frag = json!({
         "flavour": "sequential (no shuttle: std Mutex/OnceLock, shipped capacity, real thread-local storage, one OS thread)",
         "capacity": verif_plan_cache::CAPACITY,
         "histories": runs, "requests": total.requests, "cache_hits": total.hits, "evictions_observed": total.evictions,
-        "max_plans_cached": total.max_cached, "back_to_back_requests_with_block_lengths_equal_mod_65536": total.alias_pairs,
+        "max_plans_cached": total.max_cached, "clock_jumps_injected": total.clock_jumps, "simulated_idle_seconds": total.jumped_s,
+        "clock_seam": "LD_PRELOAD interposer on clock_gettime/gettimeofday/time with a simulator-owned offset (sim/src/clockshim.c)", "back_to_back_requests_with_block_lengths_equal_mod_65536": total.alias_pairs,
         "wall_s": wall, "violations": violations.len(), "sample_history": sample, "tier": ctx.tier(), "seed": ctx.seed,
     });
     let fdir = ctx.verif_dir.join("shuttle17").join("target");
     let _ = std::fs::create_dir_all(&fdir);
     let _ = std::fs::write(fdir.join("evidence-sequential.json"), serde_json::to_string_pretty(&frag).unwrap());
     println!(
-        "C17 {} [sequential histories, capacity {}]: {} histories, {} requests, {} evictions, max {} plans cached, {:.1}s",
+        "C17 {} [sequential histories, capacity {}]: {} histories, {} requests, {} evictions, max {} plans cached, {} clock jumps ({} simulated idle seconds), {:.1}s",
         ctx.tier(),
         verif_plan_cache::CAPACITY,
         runs,
         total.requests,
         total.evictions,
         total.max_cached,
+        total.clock_jumps,
+        total.jumped_s,
         wall
     );
     report::conclude(ctx, &violations)
 }
 
-pub fn replay(_ctx: &Ctx, doc: &serde_json::Value) -> i32 {
+pub fn replay(ctx: &Ctx, doc: &serde_json::Value) -> i32 {
+    clock::ensure(&ctx.verif_dir);
     let h: History = match serde_json::from_value(doc["scenario"].clone()) {
         Ok(h) => h,
         Err(e) => {
